@@ -430,7 +430,7 @@ func c15JudgePos(c *mon.Ctx, in *c15Pos) {
 			checkAddr("NewAddressFromPublicKeyHash", a, err)
 		}
 		if key != nil {
-			if c.Try("bscript.NewAddressFromPublicKeyString", func() { a, err = bscript.NewAddressFromPublicKeyString(hex.EncodeToString(key), mainnet) }) {
+			if c.Try("bscript.NewAddressFromPublicKeyString", func() { a, err = bscript.NewAddressFromPublicKeyString(c15Spell(hex.EncodeToString(key)), mainnet) }) {
 				checkAddr("NewAddressFromPublicKeyString", a, err)
 			}
 			if c.Try("bscript.NewAddressFromPublicKey", func() { a, err = bscript.NewAddressFromPublicKey(pub, mainnet) }) {
@@ -504,7 +504,7 @@ func c15JudgePos(c *mon.Ctx, in *c15Pos) {
 			}
 		}
 	}
-	if c.Try("bscript.NewP2PKHFromPubKeyHashStr", func() { s, err = bscript.NewP2PKHFromPubKeyHashStr(hx) }) {
+	if c.Try("bscript.NewP2PKHFromPubKeyHashStr", func() { s, err = bscript.NewP2PKHFromPubKeyHashStr(c15Spell(hx)) }) {
 		checkScript("NewP2PKHFromPubKeyHashStr", s, err)
 		if s != nil && err == nil { // a script handed out stays what it was whatever is built later
 			kept := s
@@ -512,7 +512,7 @@ func c15JudgePos(c *mon.Ctx, in *c15Pos) {
 		}
 	}
 	tx := bt.NewTx()
-	if c.Try("bt.(*Tx).AddP2PKHOutputFromPubKeyHashStr", func() { err = tx.AddP2PKHOutputFromPubKeyHashStr(hx, 1) }) {
+	if c.Try("bt.(*Tx).AddP2PKHOutputFromPubKeyHashStr", func() { err = tx.AddP2PKHOutputFromPubKeyHashStr(c15Spell(hx), 1) }) {
 		if err != nil || len(tx.Outputs) != 1 {
 			viol("C15:constructor-not-canonical:Tx.AddP2PKHOutputFromPubKeyHashStr", "error %v, %d outputs", err, len(tx.Outputs))
 		} else {
@@ -523,14 +523,14 @@ func c15JudgePos(c *mon.Ctx, in *c15Pos) {
 		if c.Try("bscript.NewP2PKHFromPubKeyBytes", func() { s, err = bscript.NewP2PKHFromPubKeyBytes(key) }) {
 			checkScript("NewP2PKHFromPubKeyBytes", s, err)
 		}
-		if c.Try("bscript.NewP2PKHFromPubKeyStr", func() { s, err = bscript.NewP2PKHFromPubKeyStr(hex.EncodeToString(key)) }) {
+		if c.Try("bscript.NewP2PKHFromPubKeyStr", func() { s, err = bscript.NewP2PKHFromPubKeyStr(c15Spell(hex.EncodeToString(key))) }) {
 			checkScript("NewP2PKHFromPubKeyStr", s, err)
 		}
 		if c.Try("bscript.NewP2PKHFromPubKeyEC", func() { s, err = bscript.NewP2PKHFromPubKeyEC(pub) }) {
 			checkScript("NewP2PKHFromPubKeyEC", s, err)
 		}
 		stx := bt.NewTx()
-		if c.Try("bt.(*Tx).AddP2PKHOutputFromPubKeyStr", func() { err = stx.AddP2PKHOutputFromPubKeyStr(hex.EncodeToString(key), 1) }) {
+		if c.Try("bt.(*Tx).AddP2PKHOutputFromPubKeyStr", func() { err = stx.AddP2PKHOutputFromPubKeyStr(c15Spell(hex.EncodeToString(key)), 1) }) {
 			if err != nil || len(stx.Outputs) != 1 {
 				viol("C15:constructor-not-canonical:Tx.AddP2PKHOutputFromPubKeyStr", "error %v, %d outputs", err, len(stx.Outputs))
 			} else {
@@ -779,4 +779,25 @@ func c15HashWithZeroDigits(r *prng.R, ver byte, start, run int) []byte {
 		}
 	}
 	return full[1:]
+}
+
+var c15Spelled int
+
+// c15Spell writes a hex string as callers may: lower case (what the standard
+// encoder emits), upper case, or mixed - the bytes meant are the same.
+func c15Spell(h string) string {
+	c15Spelled++
+	switch c15Spelled % 5 { // (the call sites per case are a multiple of two: an odd cycle moves every site through every spelling)
+	case 1, 4:
+		return strings.ToUpper(h)
+	case 2:
+		b := []byte(h)
+		for i := range b {
+			if i%3 == 0 && b[i] >= 'a' && b[i] <= 'f' {
+				b[i] -= 'a' - 'A'
+			}
+		}
+		return string(b)
+	}
+	return h
 }
